@@ -21,11 +21,33 @@ AKINDS = ["true", "true", "true", "false", "non-tuple", "missing-ok", "non-bool-
           "expr-true", "expr-false"]
 
 
-def gen_file(r, fid):
+HELPER_IMPORT = "let helper = import \"helper.ucg\";\n"
+
+
+def gen_helper(r):
+    """a shared non-test file with assertions of its own; every test file that imports it evaluates them"""
+    lines = ["let not_a_test = 1;\n"]
+    ok_ids, fail_ids = [], []
+    for i in range(r.choice([0, 1, 1, 2, 3])):
+        aid = "helper-a%d" % i
+        if r.random() < 0.6:
+            lines.append("assert {ok = not_a_test == 1, desc = \"%s\"};\n" % aid)
+            ok_ids.append(aid)
+        else:
+            lines.append("assert {ok = not_a_test > 1, desc = \"%s\"};\n" % aid)
+            fail_ids.append(aid)
+    return "".join(lines), {"ids_ok": ok_ids, "ids_fail": fail_ids}
+
+
+def gen_file(r, fid, helper=None):
     """-> (text, truth: {"pass": bool, "ids_ok": [...], "ids_fail": [...], "build_error": kind|None})"""
     n = r.randint(0, 8)
     lines = ["let mk = func (b, d) => {ok = b, desc = d};\n", "let seven = 7;\n"]
     ok_ids, fail_ids, malformed = [], [], 0
+    if helper is not None and r.random() < 0.4:
+        lines.insert(0, HELPER_IMPORT)
+        ok_ids += helper["ids_ok"]
+        fail_ids += helper["ids_fail"]
     err = None
     err_at = None
     if r.random() < 0.25:
@@ -165,7 +187,7 @@ def judge_run(tp, names, order, truths, res, files, argv=None, alone_ref=None):
         elif t["build_error"] is None:
             exp_ok, exp_fail = sorted(t["ids_ok"]), sorted(t["ids_fail"])
             if sorted(v["ok_ids"]) != exp_ok or sorted(v["notok_ids"]) != exp_fail:
-                foreign = [x for x in v["ok_ids"] + v["notok_ids"] if not x.startswith(name.split("_")[0] + "-")]
+                foreign = [x for x in v["ok_ids"] + v["notok_ids"] if not x.startswith(name.split("_")[0] + "-") and not x.startswith("helper-")]
                 dup = len(set(v["ok_ids"] + v["notok_ids"])) != len(v["ok_ids"] + v["notok_ids"])
                 kind = "assertions-of-another-file-in-log" if foreign else ("assertion-logged-twice" if dup else "assertion-missing-or-wrong-outcome")
                 res.violation(["assertion-log", kind, ctx], witness, {"file": name, "expected_ok": exp_ok, "expected_not_ok": exp_fail,
@@ -191,16 +213,17 @@ def task(args):
     for c in range(count):
         nfiles = r.randint(1, 4)
         files, truths = {}, {}
+        helper_text, helper_truth = gen_helper(r)
         for i in range(nfiles):
             name = "t%d_test.ucg" % i
-            text, truth = gen_file(r, "t%d" % i)
+            text, truth = gen_file(r, "t%d" % i, helper_truth)
             files[name] = text
             truths[name] = truth
         names = sorted(files)
+        files["helper.ucg"] = helper_text
         with core.TempProject("c13") as tp:
             for n, t in files.items():
                 tp.write(n, t)
-            tp.write("helper.ucg", "let not_a_test = 1;\n")
             for order in itertools.permutations(names):
                 hard = any(not truths[a]["pass"] and truths[b]["pass"] for i, a in enumerate(order) for b in order[i + 1:]) or \
                     any(t["malformed"] or any("computed" in x for x in []) for t in truths.values())
@@ -262,11 +285,19 @@ def truth_from_text(text):
 def check_witness(w):
     res = core.Result()
     files = w["files"]
-    truths = {n: truth_from_text(t) for n, t in files.items()}
+    names = sorted(n for n in files if n.endswith("_test.ucg"))
+    truths = {n: truth_from_text(files[n]) for n in names}
+    if "helper.ucg" in files:
+        ht = truth_from_text(files["helper.ucg"].replace("not_a_test == 1", "true").replace("not_a_test > 1", "false"))
+        for n in names:
+            if files[n].startswith(HELPER_IMPORT):
+                truths[n]["ids_ok"] += ht["ids_ok"]
+                truths[n]["ids_fail"] += ht["ids_fail"]
+                truths[n]["pass"] = truths[n]["pass"] and not ht["ids_fail"]
     with core.TempProject("c13r") as tp:
         for n, t in files.items():
             tp.write(n, t)
-        judge_run(tp, sorted(files), tuple(w["order"]), truths, res, files, argv=w.get("argv") if w.get("argv") != w["order"] else None)
+        judge_run(tp, names, tuple(w["order"]), truths, res, files, argv=w.get("argv") if w.get("argv") != w["order"] else None)
     return res
 
 
